@@ -267,6 +267,7 @@ def run(ck, tier):
     run_stored(ck, F)
     run_anchors(ck, F)
     run_inputs(ck, F)
+    run_conditional(ck, F)
     run_overflow(ck, F)
     api.must_be_unsafe(ck, F, "C09.unchecked-api-is-unsafe", ["arrow_buffer", "arrow_data", "arrow_array", "arrow_schema", "arrow_row", "arrow_ipc", "arrow_select", "arrow_cast"],
                        UNSAFE_NAME, UNSAFE_EXEMPT, floor=60)
@@ -328,3 +329,52 @@ def run_inputs(ck, F):
             else:
                 ck.bad("C09.validator-inputs-checked", key, "%s: %d input(s) of type/field `%s` decide a rejecting branch (%s); the reference tree has %d: a validation no longer "
                        "looks at one of its operands" % (u, len(have), sig, sorted(have), n), "%s:%s" % (fn["file"], fn["line"]))
+
+
+def unit_profile(F, fn):
+    crate = F.crate(fn["id"].lstrip("<").split("::", 1)[0])
+    fns, i = [fn], 0
+    while i < len(fns):
+        fns += [c for c in crate.closures_of.get(fns[i]["id"], []) if "mir" in c]
+        i += 1
+    out = []
+    for f in fns:
+        out += flow.guard_profile(Body(f))
+    return sorted(out)
+
+
+def guard_profile_table(F):
+    out = {}
+    for u in validator_units(F):
+        fn = F.resolve(u)
+        if fn is not None:
+            p = unit_profile(F, fn)
+            if p:
+                out[u] = p
+    return out
+
+
+def run_conditional(ck, F):
+    tab = json.load(open(os.path.join(os.path.dirname(__file__), "tables", "c09_guard_profiles.json")))
+    ck.rule("C09.validation-not-made-conditional", "for every validator / checked constructor: each rejecting decision runs under some number of enabling conditions (the "
+            "non-rejecting branches it is control dependent on: a loop being entered, a type arm, `if !all_null`); for every k the number of rejecting decisions that need "
+            "at most k such conditions has not dropped below the reference tree: a new fast path, early `continue` or skip condition in front of an existing check lowers it",
+            floor=len(tab))
+    for u, ref in sorted(tab.items()):
+        fn = F.resolve(u)
+        if fn is None:
+            ck.missing_anchor(u, "C09.validation-not-made-conditional")
+            continue
+        cur = unit_profile(F, fn)
+        worst = None
+        for k in sorted(set(ref)):
+            r = sum(1 for d in ref if d <= k)
+            c = sum(1 for d in cur if d <= k)
+            if c < r and worst is None:
+                worst = (k, r, c)
+        if worst is None:
+            ck.ok("C09.validation-not-made-conditional", u, "guard-depth profile %s (reference %s)" % (cur, ref))
+        else:
+            ck.bad("C09.validation-not-made-conditional", u, "%s: %d rejecting decision(s) run under at most %d enabling condition(s), the reference tree has %d (profiles: now %s, "
+                   "reference %s): an existing check was put behind a new condition (fast path / skip / early continue) or removed" % (u, worst[2], worst[0], worst[1], cur, ref),
+                   "%s:%s" % (fn["file"], fn["line"]))
